@@ -172,11 +172,10 @@ def compute_polymer_connection(
     Returns:
         jax.Array: Boolean array marking connected polymer regions.
     """
-    n = max([matrix.shape[0], matrix.shape[1], matrix.shape[2]])
     padded = False
     if matrix.shape[2] == 1:
         padded = True
-        matrix = jnp.pad(matrix, pad_width=((0, 0), (0, 0), (1, 1)))
+        matrix = jnp.pad(matrix, pad_width=((0, 0), (0, 0), (0, 2)))
     n4_kernel = jnp.asarray(
         [
             [0, 1, 0],
@@ -201,10 +200,19 @@ def compute_polymer_connection(
         )
         return arr
 
-    connected = jax.lax.fori_loop(0, n, _body_fn, connected)
+    # iterate to the fixpoint: a winding path may need far more than max(shape) rounds
+    def _cond_fn(carry):
+        prev, cur = carry
+        return jnp.any(prev != cur)
+
+    def _while_body(carry):
+        _, cur = carry
+        return cur, _body_fn(0, cur)
+
+    _, connected = jax.lax.while_loop(_cond_fn, _while_body, (connected, _body_fn(0, connected)))
 
     if padded:
-        connected = connected[..., 1:2]
+        connected = connected[..., 0:1]
     return connected
 
 
